@@ -24,6 +24,47 @@ def searches(tap):
     return [a for a in tap.acts if a.calls]
 
 
+class _Inv:
+    """One search invocation: the node that was searched, its text, the registry calls made for it."""
+    __slots__ = ("node", "entry_value", "calls", "parent")
+
+    def __init__(self, node, entry_value, calls, parent):
+        self.node = node
+        self.entry_value = entry_value
+        self.calls = calls
+        self.parent = parent
+
+
+def invocations(tap, root):
+    """Search invocations. Normally read off the activation tap; if the engine's recursion is not visible to it (only
+    the root activation was seen although more than one search happened) the registry calls are grouped into runs over
+    one text object and the searched node is found by identity of its value."""
+    acts = searches(tap)
+    seen_calls = sum(len(a.calls) for a in acts)
+    if seen_calls == len(tap.calls) and not (len(tap.acts) <= 1 and len(tap.calls) > len(tap.names)):
+        return [_Inv(a.node, a.entry_value, a.calls, a.parent) for a in acts]
+    by_value = {}
+    for node in [root] + [n for n, _, _ in tree.preorder(root)]:
+        by_value.setdefault(id(node.value), []).append(node)
+    out = []
+    run = []
+    for call in tap.calls:
+        if run and (call.data is not run[-1].data or call.idx <= run[-1].idx):
+            out.append(run)
+            run = []
+        run.append(call)
+    if run:
+        out.append(run)
+    invs = []
+    for run in out:
+        nodes = by_value.get(id(run[0].data), [])
+        if len(nodes) != 1:
+            continue  # ambiguous (interned value shared by several nodes): not judged
+        node = nodes[0]
+        invs.append(_Inv(node, run[0].data, run, None if node is root else node))
+    return invs
+
+
 def stream_well_formed(tap) -> bool:
     for call in tap.calls:
         n = len(call.data)
@@ -82,7 +123,7 @@ def derive_levels(root, tap):
 
 def check_c04(root, tap, report, counts):
     ids = _in_tree_ids(root)
-    for act in searches(tap):
+    for act in invocations(tap, root):
         S = act.node
         T = act.entry_value
         for call in act.calls:
@@ -164,7 +205,7 @@ def check_c05(root, tap, report, counts):
                        f"children of {node.type!r}: {y.type!r} [{y.start},{y.end}) lies inside earlier sibling {x.type!r} [{x.start},{x.end})")
                 break
     # Monitor 2: fate of hits enclosed by an earlier kept hit of the same search
-    for act in searches(tap):
+    for act in invocations(tap, root):
         T = act.entry_value
         snaps = []
         order = 0
